@@ -78,6 +78,7 @@ where A: FnOnce() -> RA + Send, B: FnOnce() -> RB + Send, RA: Send, RB: Send {
 
 pub fn join_context<A, B, RA, RB>(a: A, b: B) -> (RA, RB)
 where A: FnOnce(FnContext) -> RA + Send, B: FnOnce(FnContext) -> RB + Send, RA: Send, RB: Send {
+    touch_global();
     let ids = {
         let mut g = SCHED.lock().unwrap();
         match g.as_mut() {
@@ -123,7 +124,7 @@ where A: FnOnce(FnContext) -> RA + Send, B: FnOnce(FnContext) -> RB + Send, RA: 
     }
 }
 
-pub fn current_num_threads() -> usize { SCHED.lock().unwrap().as_ref().map(|s| s.threads).unwrap_or(1) }
+pub fn current_num_threads() -> usize { touch_global(); SCHED.lock().unwrap().as_ref().map(|s| s.threads).unwrap_or(1) }
 pub fn current_thread_index() -> Option<usize> { Some(0) }
 pub fn max_num_threads() -> usize { 1 << 16 }
 pub fn current_thread_has_pending_tasks() -> Option<bool> { Some(false) }
@@ -152,11 +153,29 @@ pub fn spawn_broadcast<OP>(op: OP) where OP: Fn(BroadcastContext<'_>) + Send + S
 pub enum Yield { Executed, Idle }
 pub fn yield_now() -> Option<Yield> { Some(Yield::Idle) }
 pub fn yield_local() -> Option<Yield> { Some(Yield::Idle) }
+/// rayon-core's global registry is created by the first operation that needs it (a `join` outside of
+/// a pool, `current_num_threads`, ...) or by `build_global`, whichever comes first; `build_global`
+/// afterwards fails. The shim keeps that bit of process history.
+static GLOBAL_INIT: std::sync::atomic::AtomicBool = std::sync::atomic::AtomicBool::new(false);
+fn touch_global() { GLOBAL_INIT.store(true, std::sync::atomic::Ordering::SeqCst); }
 #[derive(Debug)] pub struct ThreadPoolBuildError;
-impl std::fmt::Display for ThreadPoolBuildError { fn fmt(&self, f: &mut std::fmt::Formatter<'_>) -> std::fmt::Result { write!(f, "shim") } }
+impl std::fmt::Display for ThreadPoolBuildError { fn fmt(&self, f: &mut std::fmt::Formatter<'_>) -> std::fmt::Result { write!(f, "The global thread pool has already been initialized.") } }
 impl std::error::Error for ThreadPoolBuildError {}
 #[derive(Debug)] pub struct ThreadPool;
 impl ThreadPool { pub fn install<OP, R>(&self, op: OP) -> R where OP: FnOnce() -> R + Send, R: Send { op() } pub fn current_num_threads(&self) -> usize { current_num_threads() } }
 #[derive(Debug, Default)] pub struct ThreadPoolBuilder;
-impl ThreadPoolBuilder { pub fn new() -> Self { ThreadPoolBuilder } pub fn num_threads(self, _n: usize) -> Self { self } pub fn build(self) -> Result<ThreadPool, ThreadPoolBuildError> { Ok(ThreadPool) } pub fn build_global(self) -> Result<(), ThreadPoolBuildError> { Ok(()) } }
+impl ThreadPoolBuilder {
+    pub fn new() -> Self { ThreadPoolBuilder }
+    pub fn num_threads(self, _n: usize) -> Self { self }
+    pub fn stack_size(self, _n: usize) -> Self { self }
+    pub fn thread_name<F>(self, _f: F) -> Self where F: FnMut(usize) -> String + 'static { self }
+    pub fn panic_handler<H>(self, _h: H) -> Self where H: Fn(Box<dyn std::any::Any + Send>) + Send + Sync + 'static { self }
+    pub fn start_handler<H>(self, _h: H) -> Self where H: Fn(usize) + Send + Sync + 'static { self }
+    pub fn exit_handler<H>(self, _h: H) -> Self where H: Fn(usize) + Send + Sync + 'static { self }
+    pub fn use_current_thread(self) -> Self { self }
+    pub fn build(self) -> Result<ThreadPool, ThreadPoolBuildError> { Ok(ThreadPool) }
+    pub fn build_global(self) -> Result<(), ThreadPoolBuildError> {
+        if GLOBAL_INIT.swap(true, std::sync::atomic::Ordering::SeqCst) { Err(ThreadPoolBuildError) } else { Ok(()) }
+    }
+}
 #[derive(Debug)] pub struct ThreadBuilder;
